@@ -129,7 +129,7 @@ theorem stepCbBegin_chan {w s cb s'} (hs : stepCbBegin w s cb = some s') :
   · simp at hs; subst hs; exact .same rfl
   · simp at hs
 
-theorem stepCbEnd_chan {s cb ok s'} (hs : stepCbEnd s cb ok = some s') : s'.chan = s.chan := by
+theorem stepCbEnd_chan {w s cb ok s'} (hs : stepCbEnd w s cb ok = some s') : s'.chan = s.chan := by
   unfold stepCbEnd at hs; frame_crush hs
 
 theorem stepCbAbandon_chan {s cb s'} (hs : stepCbAbandon s cb = some s') : s'.chan = s.chan := by
